@@ -231,14 +231,27 @@ package version
 //@   modifies *
 //@   ensures typeis(self, "*editLog") ==> (len(cast(self, "*editLog").logs) == old(len(cast(self, "*editLog").logs)) && forall(i, 0, len(cast(self, "*editLog").logs), cast(self, "*editLog").logs[i] == old(cast(self, "*editLog").logs[i])))
 //@   ensures all(w, "bufioutil.BufioWriter", w.persistedAt == old(w.persistedAt) && w.persistedOK == old(w.persistedOK))
+//@   ensures all(x, "*storeVersionSet", x.numberReadUnderLock == old(x.numberReadUnderLock) && x.baseReadUnderLock == old(x.baseReadUnderLock))
 //@ end
 //@ stable storeVersionSet.nextFileNumber
+//@ # the version-set lock serialises commits: the next file number that goes into the record and the version that is cloned
+//@ # must both be read inside the critical section of this commit (read earlier, another commit may hand out numbers or
+//@ # install a version in between: the record would carry a stale number, the clone would drop the other commit)
+//@ lock storeVersionSet.mutex protects familyVersions familyIDs
+//@ ghost field storeVersionSet.numberReadUnderLock bool
+//@ ghost field storeVersionSet.baseReadUnderLock bool
 //@ func storeVersionSet.CommitFamilyEditLog
-//@   prop C01
+//@   prop C01 C02
 //@   clock
+//@   ghost_entry vs.numberReadUnderLock = false
+//@   ghost_entry vs.baseReadUnderLock = false
+//@   ghost_after atomic.Int64.Load vs.numberReadUnderLock = locked(vs.mutex)
+//@   ghost_after FamilyVersion.GetSnapshot vs.baseReadUnderLock = locked(vs.mutex)
 //@   requires editLog != nil && typeis(editLog, "*editLog") && (vsFamily(vs, family) != nil ==> (vs.manifest != nil && vs.manifest.n >= 0)) && vs.nextFileNumber != nil
 //@   modifies *
 //@   ensures[a_version_is_installed_only_after_its_record_is_written_and_synced] calls(cast(vsFamily(vs, family), "FamilyVersion").appendVersion) != old(calls(cast(vsFamily(vs, family), "FamilyVersion").appendVersion)) ==> (result == nil && old(vs.manifest) != nil && old(vs.manifest).persistedOK && old(vs.manifest).persistedAt > old(now()) && old(vs.manifest).persistedAt < calledat(cast(vsFamily(vs, family), "FamilyVersion").appendVersion))
+//@   ensures[the_logged_file_number_is_read_inside_the_commit's_critical_section] result == nil ==> vs.numberReadUnderLock
+//@   ensures[the_new_version_is_built_on_the_version_that_is_current_inside_the_critical_section] calls(cast(vsFamily(vs, family), "FamilyVersion").appendVersion) != old(calls(cast(vsFamily(vs, family), "FamilyVersion").appendVersion)) ==> vs.baseReadUnderLock
 //@   ensures[failure_installs_nothing] result != nil ==> calls(cast(vsFamily(vs, family), "FamilyVersion").appendVersion) == old(calls(cast(vsFamily(vs, family), "FamilyVersion").appendVersion))
 //@   ensures[success_installs_exactly_one_version] (result == nil) ==> calls(cast(vsFamily(vs, family), "FamilyVersion").appendVersion) == old(calls(cast(vsFamily(vs, family), "FamilyVersion").appendVersion)) + 1
 //@   ensures[the_record_carries_the_next_file_number] result == nil ==> (len(cast(editLog, "*editLog").logs) == old(len(cast(editLog, "*editLog").logs)) + 1 && typeis(cast(editLog, "*editLog").logs[old(len(cast(editLog, "*editLog").logs))], "*nextFileNumber"))
